@@ -206,6 +206,33 @@ func (P *Program) Field(pkgSuffix, typeName, field string) *types.Var {
 			return st.Field(i) // renamed field (see baseline.go)
 		}
 	}
+	// moved into a small struct of the module that groups related fields (Map.resizing -> Map.gate.active): the unique
+	// nested field with the type the baseline records for the vanished one
+	if want := baselineFieldType(pkgSuffix, typeName, field); want != "" {
+		var cands []*types.Var
+		for i := 0; i < st.NumFields(); i++ {
+			f := st.Field(i)
+			if baselineFieldType(pkgSuffix, typeName, f.Name()) != "" {
+				continue // a field the baseline already knows: not a new grouping struct
+			}
+			n, isNamed := f.Type().(*types.Named)
+			if !isNamed || n.Obj().Pkg() == nil || !strings.HasPrefix(n.Obj().Pkg().Path(), modPath) {
+				continue
+			}
+			inner, ok := n.Underlying().(*types.Struct)
+			if !ok {
+				continue
+			}
+			for j := 0; j < inner.NumFields(); j++ {
+				if types.TypeString(inner.Field(j).Type(), func(p *types.Package) string { return p.Name() }) == want {
+					cands = append(cands, inner.Field(j))
+				}
+			}
+		}
+		if len(cands) == 1 {
+			return cands[0]
+		}
+	}
 	return nil
 }
 
